@@ -19,9 +19,11 @@ var Rows = []Row{
 type Zone int
 
 const (
-	Plain    Zone = iota // no row applies: message is the raw text, no parameter
-	Strict               // a row applies and the parameter is a well-formed decimal fitting int
-	DontCare             // a row applies (or may apply) but the parameter spelling is not settled by the statement
+	Plain      Zone = iota // no row applies: message is the raw text, no parameter
+	Strict                 // a row applies and the parameter is a well-formed decimal fitting int
+	DontCare               // a row applies but the spelling of the number is not settled by the statement (out of range, "+3", " 1")
+	NonNumeric             // a row's prefix/suffix match but there is no number between them (absent, "abc", "%d"): nothing to
+	// replace by X, so the message is the server's text and there is no parameter
 )
 
 type Expect struct {
@@ -71,6 +73,19 @@ func Classify(text string) Expect {
 	}
 	if len(strict) == 1 && len(matches) == 1 {
 		return strict[0]
+	}
+	// no number at all between prefix and suffix in any matching row?
+	numericish := false
+	for _, r := range matches {
+		mid := text[len(r.Prefix) : len(text)-len(r.Suffix)]
+		t := strings.TrimSpace(mid)
+		t = strings.TrimLeft(t, "+-")
+		if t != "" && strings.Trim(t, "0123456789") == "" {
+			numericish = true
+		}
+	}
+	if !numericish {
+		return Expect{Zone: NonNumeric, Message: text}
 	}
 	return Expect{Zone: DontCare, Message: text, XForms: xforms}
 }
